@@ -130,23 +130,33 @@ Proof.
   change (take 2 s) with (take (1 + 1) s). rewrite (take_snoc _ _ _ H1), (take_1 _ _ H0). cbn. rewrite Hc, Hd, He. reflexivity.
 Qed.
 
-(* a run of plain bytes described position by position *)
-Definition plain_at (s : bytes) (p k : N) : Prop := forallb plain (take k (drop p s)) = true /\ p + k <= nlen s.
+(* a run of k plain bytes at position p *)
+Definition plain_at (s : bytes) (p k : N) : Prop :=
+  forallb plain (take k (drop p s)) = true /\ nlen (take k (drop p s)) = k.
 
-Lemma plain_at_0 s p : p <= nlen s -> plain_at s p 0.
-Proof. intros H. split; [reflexivity|lia]. Qed.
+Lemma plain_at_0 s p : plain_at s p 0.
+Proof. split; reflexivity. Qed.
 Lemma plain_at_snoc s p k c :
   plain_at s p k -> get s (p + k) = Some c -> plain c = true -> plain_at s p (k + 1).
 Proof.
-  intros [H1 H2] Hg Hc. split; [|apply get_some in Hg; lia].
-  rewrite (take_snoc _ k c) by (rewrite get_drop; exact Hg). rewrite forallb_app, H1. cbn. rewrite Hc. reflexivity.
+  intros [H1 H2] Hg Hc. rewrite <- get_drop in Hg. unfold plain_at. rewrite (take_snoc _ k c Hg). split.
+  - rewrite forallb_app, H1. cbn. rewrite Hc. reflexivity.
+  - rewrite nlen_app, H2. reflexivity.
 Qed.
 Lemma plain_at_app s p k j : plain_at s p k -> plain_at s (p + k) j -> plain_at s p (k + j).
 Proof.
-  intros [H1 H2] [H3 H4]. split; [|lia]. rewrite take_add, forallb_app, H1, drop_drop, H3. reflexivity.
+  intros [H1 H2] [H3 H4]. unfold plain_at. rewrite take_add, drop_drop. split.
+  - rewrite forallb_app, H1, H3. reflexivity.
+  - rewrite nlen_app, H2, H4. reflexivity.
 Qed.
-Lemma plain_at_take s k : plain_at s 0 k -> forallb plain (take k s) = true.
-Proof. intros [H _]. exact H. Qed.
+Lemma plain_at_take s k : plain_at s 0 k -> forallb plain (take k s) = true /\ nlen (take k s) = k.
+Proof. intros H. exact H. Qed.
+Lemma plain_at_bound s p k : plain_at s p k -> 0 < k -> p + k <= nlen s.
+Proof.
+  intros [_ H] Hk. assert (Hl : nlen (take k (drop p s)) <= nlen (drop p s)).
+  { unfold take. rewrite !nlen_eq, firstn_length. lia. }
+  rewrite nlen_drop in Hl. lia.
+Qed.
 
 (* ---- linecol ---- *)
 Lemma linecol_add src a n : linecol src (a + n) = adv_str (linecol src a) (take n (drop a src)).
@@ -192,12 +202,11 @@ Lemma synced_mark text off ln cl cl' cd ld : synced text off ln cl cd ld -> sync
 Proof. intros H Hld. destruct (H Hld) as [H1 _]. split; [exact H1|discriminate]. Qed.
 
 Lemma synced_plain text off n ln cl cd ld :
-  synced text off ln cl cd ld -> forallb plain (take n (drop off text)) = true -> off + n <= nlen text ->
-  synced text (off + n) ln (cl + n) cd ld.
+  synced text off ln cl cd ld -> plain_at text off n -> synced text (off + n) ln (cl + n) cd ld.
 Proof.
-  intros H Hp Hn. destruct (plain_all _ Hp) as [H1 H2].
+  intros H [Hp Hn]. destruct (plain_all _ Hp) as [H1 H2].
   eapply synced_adv; [exact H|reflexivity| |rewrite H1; reflexivity].
-  rewrite (adv_str_nolf _ _ _ H1), H2, nlen_take; [reflexivity|]. rewrite nlen_drop. lia.
+  rewrite (adv_str_nolf _ _ _ H1), H2, Hn. reflexivity.
 Qed.
 
 (* ---- decoded runes as chunks of bytes ---- *)
@@ -291,15 +300,19 @@ Proof.
   apply (forall_bytes (fun c => Bool.eqb (isStartChar c) (is_start c))); [vm_compute; reflexivity|exact H].
 Qed.
 
-(* ---- partial correctness ---- *)
-Definition psafe {A} (r : res A) (Q : A -> Prop) : Prop :=
-  match r with Ok a => Q a | _ => True end.
+(* ---- partial correctness: what holds of a result, and of the state of an
+   error (E); nothing is claimed of Fault and NoFuel, which C04 excludes ---- *)
+Definition psafeE {A} (E : lexer -> Prop) (r : res A) (Q : A -> Prop) : Prop :=
+  match r with Ok a => Q a | Err l => E l | _ => True end.
 
+Section PSafe.
+Variable E : lexer -> Prop.
+Local Notation psafe := (psafeE E).
 Lemma psafe_bind {A B} (r : res A) (k : A -> res B) Q' Q :
   psafe r Q' -> (forall a, Q' a -> psafe (k a) Q) -> psafe (bind r k) Q.
 Proof. destruct r; simpl; auto. Qed.
 Lemma psafe_bind_eq {A B} (r : res A) (k : A -> res B) Q :
-  (forall a, r = Ok a -> psafe (k a) Q) -> psafe (bind r k) Q.
+  (forall l, r = Err l -> E l) -> (forall a, r = Ok a -> psafe (k a) Q) -> psafe (bind r k) Q.
 Proof. destruct r; simpl; auto. Qed.
 Lemma psafe_mono {A} (r : res A) (Q Q' : A -> Prop) : psafe r Q -> (forall a, Q a -> Q' a) -> psafe r Q'.
 Proof. destruct r; simpl; auto. Qed.
@@ -331,23 +344,38 @@ Proof.
   - rewrite bind_assoc. apply pidx. intros c Hc. simpl. apply H2, Hc.
   - simpl. apply H1. assumption.
 Qed.
+(* index tests raise no error *)
+Lemma ptest_idx_is a l i c : psafe (andm a (idx_is l i c)) (fun _ => True).
+Proof. unfold andm, idx_is, idx. destruct a; [destruct (get (l_src l) i)|]; exact I. Qed.
+End PSafe.
+Arguments psafe_bind {E A B} r k Q' Q _ _.
+Arguments psafe_bind_eq {E A B} r k Q _ _.
+Arguments psafe_mono {E A} r Q Q' _ _.
+Arguments psafe_loop {E S} body J Q _ fuel s _.
+Arguments pidx {E} l i {B} k Q _.
+Arguments pidx_is {E} l i c {B} k Q _.
+Arguments pandm {E B} a r k Q _ _.
+Arguments porm {E B} a r k Q _ _.
+Arguments pnxt {E} l i {B} k Q _ _.
+Arguments ptest_idx_is {E} a l i c.
 
 Ltac pstep :=
   match goal with
-  | |- psafe (bind (idx ?l ?i) _) _ => apply pidx; intros ?c ?Hc
-  | |- psafe (bind (idx_is ?l ?i ?c) _) _ => apply pidx_is; intros ?x ?Hx
-  | |- psafe (bind (nxt ?l ?i) _) _ => apply pnxt; [intros ?Hn | intros ?x ?Hx]
-  | |- psafe (bind (andm ?a _) _) _ => apply pandm; intros ?Ha
-  | |- psafe (bind (orm ?a _) _) _ => apply porm; intros ?Ha
-  | |- psafe (bind (bind _ _) _) _ => rewrite bind_assoc
-  | |- psafe (bind (Ok _) _) _ => rewrite bind_ok
-  | |- psafe (bind (if ?b then _ else _) _) _ => destruct b eqn:?
-  | |- psafe (if ?b then _ else _) _ => destruct b eqn:?
-  | |- psafe (bind (Err _) _) _ => exact I
-  | |- psafe (Err _) _ => exact I
-  | |- psafe (bind Fault _) _ => exact I
-  | |- psafe Fault _ => exact I
+  | |- psafeE _ (bind (idx ?l ?i) _) _ => apply pidx; intros ?c ?Hc
+  | |- psafeE _ (bind (idx_is ?l ?i ?c) _) _ => apply pidx_is; intros ?x ?Hx
+  | |- psafeE _ (bind (nxt ?l ?i) _) _ => apply pnxt; [intros ?Hn | intros ?x ?Hx]
+  | |- psafeE _ (bind (andm ?a _) _) _ => apply pandm; intros ?Ha
+  | |- psafeE _ (bind (orm ?a _) _) _ => apply porm; intros ?Ha
+  | |- psafeE _ (bind (bind _ _) _) _ => rewrite bind_assoc
+  | |- psafeE _ (bind (Ok _) _) _ => rewrite bind_ok
+  | |- psafeE _ (bind (if ?b then _ else _) _) _ => destruct b eqn:?
+  | |- psafeE _ (if ?b then _ else _) _ => destruct b eqn:?
+  | |- psafeE _ (bind Fault _) _ => exact I
+  | |- psafeE _ Fault _ => exact I
   end.
+
+Tactic Notation "pget" ident(c) ident(H) := rewrite ?bind_assoc; apply pidx; intros c H; rewrite ?bind_ok.
+Tactic Notation "pgetis" ident(x) ident(H) := rewrite ?bind_assoc; apply pidx_is; intros x H; rewrite ?bind_ok.
 
 (* reduction of the projections of updated lexer states *)
 Ltac lcbn :=
@@ -437,3 +465,125 @@ Proof.
     apply andb_prop in E. destruct E as [E1 E2]. apply N.eqb_eq in E1, E2.
     specialize (Hsemi E1 E2). replace (l_base l - 1 + 1) with (l_base l) by lia. exact Hs.
 Qed.
+
+(* a token announced as deviating in line and column is right whatever its position *)
+Lemma emit_at_WO_ld text line col cd typ n l l' :
+  emit_at line col cd true typ n l = Ok l' -> WO text l ->
+  WO text l' /\ n <= len l /\ l_src l' = drop n (l_src l) /\ l_base l' = l_base l + n /\
+  l_line l' = l_line l /\ l_col l' = l_col l /\ l_cdev l' = l_cdev l /\ l_ldev l' = l_ldev l /\
+  l_ctx l' = l_ctx l /\ l_tsyn l' = l_tsyn l.
+Proof.
+  intros He [Hw Hf].
+  destruct (emit_at_inv _ _ _ _ _ _ _ _ He) as (Hn & (tok & Ho & Hty & Hlen & Hst & Hl & Hc & Hcd & Hld) & Hsrc & Hb & R).
+  split; [|split; [exact Hn|split; [exact Hsrc|split; [exact Hb|exact R]]]].
+  split.
+  - destruct (wf_drop text l n Hw Hn) as [pre [Hp1 Hp2]]. cbn in Hp1, Hp2. exists pre. rewrite Hsrc, Hb. auto.
+  - rewrite Ho. constructor; [|exact Hf]. unfold tok_ok. rewrite Hld. apply synced_ld.
+Qed.
+
+(* ---- bytes.IndexAny(s, "\n" + BOM) and bytes.Index ---- *)
+Lemma take_cons n c s : 0 < n -> take n (c :: s) = c :: take (n - 1) s.
+Proof.
+  intros H. unfold take. replace (N.to_nat n) with (S (N.to_nat (n - 1))) by lia. reflexivity.
+Qed.
+
+Lemma index_nl_bom_from_some fuel : forall s i k,
+  (length s <= fuel)%nat -> index_nl_bom_from fuel s i = Some k -> i <= k /\ nolf (take (k - i) s) = true.
+Proof.
+  induction fuel as [|f IH]; intros s i k Hf; [discriminate|]. cbn [index_nl_bom_from].
+  destruct s as [|c s']; [discriminate|].
+  destruct (c <? 128) eqn:E128.
+  - destruct (N.eqb_spec c 10) as [->|N10].
+    + intros H; injection H as <-. rewrite N.sub_diag. split; [lia|reflexivity].
+    + intros H. apply IH in H; [|cbn in *; lia]. cbn [skipn] in H. destruct H as [H1 H2]. split; [lia|].
+      rewrite take_cons by lia. cbn [nolf forallb]. apply N.eqb_neq in N10. rewrite N10. cbn [negb andb].
+      replace (k - i - 1) with (k - (i + 1)) by lia. exact H2.
+  - destruct (decode_rune (c :: s')) as [r w] eqn:Hd.
+    destruct (r =? gen_lex_BOM).
+    + intros H; injection H as <-. rewrite N.sub_diag. split; [lia|reflexivity].
+    + intros H. destruct (decode_rune_width (c :: s') r w ltac:(discriminate) Hd) as [Hw1 Hw2].
+      apply IH in H; [|rewrite skipn_length; cbn [length] in *; lia]. destruct H as [H1 H2]. split; [lia|].
+      assert (Hc10 : c <> 10) by (apply N.ltb_ge in E128; lia).
+      destruct (decode_chunk _ _ _ _ Hd Hc10) as [A1 _].
+      replace (k - i) with (N.of_nat w + (k - (i + N.of_nat w))) by lia.
+      rewrite take_add, nolf_app. unfold take at 1. rewrite Nat2N.id, A1. unfold drop. rewrite Nat2N.id. exact H2.
+Qed.
+Lemma index_nl_bom_from_none fuel : forall s i,
+  (length s <= fuel)%nat -> index_nl_bom_from fuel s i = None -> nolf s = true.
+Proof.
+  induction fuel as [|f IH]; intros s i Hf; [destruct s; [reflexivity|cbn in Hf; lia]|]. cbn [index_nl_bom_from].
+  destruct s as [|c s']; [reflexivity|].
+  destruct (c <? 128) eqn:E128.
+  - destruct (N.eqb_spec c 10) as [->|N10]; [discriminate|].
+    intros H. apply IH in H; [|cbn in *; lia]. cbn [skipn] in H. cbn [nolf forallb]. apply N.eqb_neq in N10. rewrite N10. exact H.
+  - destruct (decode_rune (c :: s')) as [r w] eqn:Hd.
+    destruct (r =? gen_lex_BOM); [discriminate|].
+    intros H. destruct (decode_rune_width (c :: s') r w ltac:(discriminate) Hd) as [Hw1 Hw2].
+    apply IH in H; [|rewrite skipn_length; cbn [length] in *; lia].
+    assert (Hc10 : c <> 10) by (apply N.ltb_ge in E128; lia).
+    destruct (decode_chunk _ _ _ _ Hd Hc10) as [A1 _].
+    rewrite <- (firstn_skipn w (c :: s')), nolf_app, A1. exact H.
+Qed.
+Lemma index_nl_bom_some s k : index_nl_bom s = Some k -> nolf (take k s) = true.
+Proof.
+  intros H. apply index_nl_bom_from_some in H; [|lia]. destruct H as [_ H]. rewrite N.sub_0_r in H. exact H.
+Qed.
+Lemma index_nl_bom_none s : index_nl_bom s = None -> nolf s = true.
+Proof. intros H. apply index_nl_bom_from_none in H; [exact H|lia]. Qed.
+
+Lemma index_from_prefix s pat : forall i k, index_from s pat i = Some k -> has_prefix (drop (k - i) s) pat = true.
+Proof.
+  induction s as [|c s IH]; intros i k; cbn [index_from].
+  - destruct (has_prefix [] pat) eqn:E; [|discriminate]. intros H; injection H as <-. rewrite N.sub_diag. exact E.
+  - destruct (has_prefix (c :: s) pat) eqn:E.
+    + intros H; injection H as <-. rewrite N.sub_diag. exact E.
+    + intros H. pose proof (index_from_bound _ _ _ _ H) as [Hb _]. apply IH in H.
+      replace (k - i) with (1 + (k - (i + 1))) by lia. rewrite <- drop_drop. exact H.
+Qed.
+Lemma index_prefix s pat k : index s pat = Some k -> has_prefix (drop k s) pat = true.
+Proof. intros H. apply index_from_prefix in H. rewrite N.sub_0_r in H. exact H. Qed.
+Lemma has_prefix_take s p : has_prefix s p = true -> take (nlen p) s = p.
+Proof.
+  revert s; induction p as [|c p IH]; intros s H; [reflexivity|].
+  destruct s as [|d s]; [discriminate|]. cbn [has_prefix] in H. apply andb_prop in H. destruct H as [H1 H2].
+  apply N.eqb_eq in H1. subst d. rewrite nlen_cons, take_cons by lia. f_equal.
+  replace (1 + nlen p - 1) with (nlen p) by lia. apply IH, H2.
+Qed.
+
+(* a new line among the first n bytes *)
+Lemma cnl_take_ge s k n : get s k = Some 10 -> k < n -> 1 <= cnl (take n s).
+Proof.
+  intros Hg Hk. replace n with (k + 1 + (n - (k + 1))) by lia.
+  rewrite take_add, (take_snoc _ _ _ Hg), !cnl_app. change (cnl [10]) with 1. lia.
+Qed.
+Lemma index_byte_from_first s c : forall i k, index_byte_from s c i = Some k -> ~ In c (take (k - i) s).
+Proof.
+  induction s as [|d s IH]; intros i k; cbn [index_byte_from]; [discriminate|].
+  destruct (N.eqb_spec d c) as [->|Hd].
+  - intros H; injection H as <-. rewrite N.sub_diag. intros [].
+  - intros H. pose proof (index_byte_from_bound _ _ _ _ H) as [Hb _]. apply IH in H.
+    rewrite take_cons by lia. intros [E|E]; [congruence|]. apply H. replace (k - (i + 1)) with (k - i - 1) by lia. exact E.
+Qed.
+Lemma index_byte_nolf s k : index_byte s 10 = Some k -> nolf (take k s) = true.
+Proof.
+  intros H. apply index_byte_from_first in H. rewrite N.sub_0_r in H.
+  unfold nolf. apply forallb_forall. intros x Hx. apply negb_true_iff, N.eqb_neq. intros ->. exact (H Hx).
+Qed.
+
+(* the primitives raise no error *)
+Lemma emit_at_noerr line col cd ld typ n l l' : emit_at line col cd ld typ n l = Err l' -> False.
+Proof.
+  unfold emit_at. destruct (len l <? n); [discriminate|].
+  destruct (n =? 0); [destruct (typ =? gen_tokenSemicolon)|]; cbv iota beta; destruct (0 <? n); discriminate.
+Qed.
+Lemma emit_noerr typ n l l' : emit typ n l = Err l' -> False.
+Proof. apply emit_at_noerr. Qed.
+Lemma advance_noerr n l l' : advance n l = Err l' -> False.
+Proof. unfold advance. destruct (len l <? n); discriminate. Qed.
+Lemma hex_run_noerr l : forall n q r l', hex_run l q n r = Err l' -> False.
+Proof.
+  induction n as [|n IH]; intros q r l'; [discriminate|]. cbn [hex_run]. unfold idx.
+  destruct (get (l_src l) q) as [c|]; [|discriminate]. cbn [bind]. destruct (hexval c); [apply IH|discriminate].
+Qed.
+Lemma emitc_noerr typ n l l' : emitc typ n l = Err l' -> False.
+Proof. unfold emitc. destruct (emit typ n l) eqn:E; cbn; try discriminate. intros H; injection H as <-. exact (emit_noerr _ _ _ _ E). Qed.
